@@ -1,9 +1,11 @@
 package rules
 
 import (
+	"fmt"
 	"go/constant"
 	"go/token"
 	"go/types"
+	"os"
 	"strings"
 
 	"golang.org/x/tools/go/ssa"
@@ -634,16 +636,22 @@ func c02Abst(r *core.Run) {
 		if fn.Signature.Recv() == nil || len(rt) != 1 || rt[0].String() != "bool" || len(fn.Params) < 2 || !strings.HasSuffix(fn.Params[1].Type().String(), "ssa.Const") {
 			continue
 		}
-		isSmallVal := func(x ssa.Value) bool {
-			small := func(v ssa.Value) bool {
-				c, ok := v.(*ssa.Call)
-				if !ok {
-					return false
-				}
-				g := core.StaticCallee(&c.Call)
-				return g != nil && p.IsProdFunc(g) && strings.Contains(g.Name(), "Small")
+		isSmallCall := func(v ssa.Value) bool {
+			c, ok := v.(*ssa.Call)
+			if !ok {
+				return false
 			}
-			if small(x) {
+			g := core.StaticCallee(&c.Call)
+			// the range test: a method of the policy that judges a go/constant.Value
+			if g == nil || !p.IsProdFunc(g) || g.Signature.Recv() == nil || len(g.Params) != 2 {
+				return false
+			}
+			grt := resultTypes(g)
+			return len(grt) == 1 && grt[0].String() == "bool" && strings.HasSuffix(g.Params[1].Type().String(), "go/constant.Value") &&
+				types.Identical(core.Deref(g.Signature.Recv().Type()), core.Deref(fn.Signature.Recv().Type()))
+		}
+		isSmallVal := func(x ssa.Value) bool {
+			if isSmallCall(x) {
 				return true
 			}
 			ph, ok := x.(*ssa.Phi)
@@ -658,7 +666,7 @@ func c02Abst(r *core.Run) {
 					}
 					continue
 				}
-				if !small(e) {
+				if !isSmallCall(e) {
 					return false
 				}
 				n++
@@ -674,92 +682,21 @@ func c02Abst(r *core.Run) {
 			k, isK := core.ConstInt(b.Y)
 			return isCall && isK && k == int64(constant.Int) && c.Call.IsInvoke() && c.Call.Method.Name() == "Kind"
 		}
-		smallEdges, nSmall := core.GuardEdges(fn, core.BoolGuard(isSmallVal, true))
 		intEdges, nInt := core.GuardEdges(fn, core.BoolGuard(isIntegerVal, true))
-		_ = nSmall
 		if len(nInt) == 0 {
 			continue
 		}
-		// paths are explored under "the literal is an integer": the other outcome of every test of that flag is cut too
+		extra := map[core.Edge]bool{}
+		var starts []*ssa.BasicBlock
 		for e := range intEdges {
 			if e.Via == nil {
-				smallEdges[core.Edge{From: e.From, Idx: 1 - e.Idx}] = true
+				extra[core.Edge{From: e.From, Idx: 1 - e.Idx}] = true // explored under "the literal is an integer"
+				starts = append(starts, e.From.Succs[e.Idx])
 			}
 		}
-		var wit []int
-		// how can a returned value be false ("keep") while the small-range test has NOT succeeded (its value taken as
-		// false)? unconditionally (a constant, an open flag), or only when the merge it comes from is entered from
-		// particular predecessors
-		type via struct{ at, pred *ssa.BasicBlock }
-		var falseWays func(v ssa.Value, neg bool, d int) (always bool, vias []via)
-		falseWays = func(v ssa.Value, neg bool, d int) (bool, []via) {
-			base, n2 := core.StripNot(v)
-			neg = neg != n2
-			if d > 4 {
-				return true, nil
-			}
-			if k, isC := base.(*ssa.Const); isC && k.Value != nil && k.Value.Kind() == constant.Bool {
-				return constant.BoolVal(k.Value) == neg, nil // value xor neg == false
-			}
-			if isSmallVal(base) {
-				return !neg, nil // taken as false: false unless negated
-			}
-			if ph, isPhi := base.(*ssa.Phi); isPhi {
-				var vs []via
-				for i, e := range ph.Edges {
-					if i >= len(ph.Block().Preds) {
-						continue
-					}
-					al, sub := falseWays(e, neg, d+1)
-					if al || len(sub) > 0 {
-						vs = append(vs, via{ph.Block(), ph.Block().Preds[i]})
-					}
-				}
-				return false, vs
-			}
-			return true, nil // an open value (a policy switch): can be false
-		}
-		for _, ret := range core.Returns(fn) {
-			always, vias := falseWays(ret.Results[0], false, 0)
-			if !always && len(vias) == 0 {
-				continue
-			}
-			nKeep++
-			for e := range intEdges {
-				if e.Via != nil {
-					continue
-				}
-				start := e.From.Succs[e.Idx]
-				if always {
-					if pth := core.PathAvoiding(start, ret.Block(), smallEdges); pth != nil && wit == nil {
-						wit = append([]int{e.From.Index}, pth...)
-					}
-					continue
-				}
-				for _, w := range vias {
-					// reach the merge through that predecessor without the small-range test having succeeded
-					edgeCut := false
-					for si, sb := range w.pred.Succs {
-						if sb == w.at && smallEdges[core.Edge{From: w.pred, Idx: si}] {
-							edgeCut = true
-						}
-					}
-					if edgeCut {
-						continue
-					}
-					var pth []int
-					if start == w.pred {
-						pth = []int{start.Index}
-					} else {
-						pth = core.PathAvoiding(start, w.pred, smallEdges)
-					}
-					if pth != nil && core.ReachAvoiding(w.at, smallEdges)[ret.Block()] && wit == nil {
-						wit = append(append([]int{e.From.Index}, pth...), w.at.Index)
-					}
-				}
-			}
-		}
-		r.Check(wit == nil, "C02.ABST", core.FuncName(fn)+"#integer-kept-only-if-small", fn.Pos(), "an integer literal is kept verbatim only after the small-range test succeeded", "an integer literal can be kept verbatim without the small-range test having succeeded (path "+core.FmtPath(wit)+"): literals outside the documented small range leak into the fingerprint in that usage context, so replacing one changes the fingerprint")
+		can, wit, nr := keepWithoutSmall(p, fn, isSmallVal, starts, extra, 0)
+		nKeep += nr
+		r.Check(!can, "C02.ABST", core.FuncName(fn)+"#integer-kept-only-if-small", fn.Pos(), "an integer literal is kept verbatim only after the small-range test succeeded", "an integer literal can be kept verbatim without the small-range test having succeeded (path "+core.FmtPath(wit)+"): literals outside the documented small range leak into the fingerprint in that usage context, so replacing one changes the fingerprint")
 	}
 	r.Floor("C02.ABST", "'keep' results of the literal policy's decision function", nKeep, 3)
 }
@@ -1143,4 +1080,113 @@ func c02VirtualView(r *core.Run) {
 		})
 	}
 	r.Floor("C02.SWAP", "collections of instructions moved to another block", nMoved, 1)
+}
+
+// keepWithoutSmall: can fn, entered at one of starts, return false ("keep") although the small-range test has not
+// succeeded? The value recognised by isSmall is taken as false: the true edges of its tests are cut, and it counts
+// as false inside returned expressions. A returned call of a repository helper is evaluated the same way with the
+// helper's parameters bound to the arguments that are the small-range value. Also returns the number of returns
+// that can yield false at all.
+func keepWithoutSmall(p *core.Program, fn *ssa.Function, isSmall func(ssa.Value) bool, starts []*ssa.BasicBlock, extraCut map[core.Edge]bool, depth int) (bool, []int, int) {
+	cut, _ := core.GuardEdges(fn, core.BoolGuard(isSmall, true))
+	if os.Getenv("SFW_DUMP") == "keep" {
+		fn.WriteTo(os.Stderr)
+		for e := range cut {
+			fmt.Fprintf(os.Stderr, "CUT b%d.%d via=%v\n", e.From.Index, e.Idx, e.Via != nil)
+		}
+	}
+	for e := range extraCut {
+		cut[e] = true
+	}
+	type via struct{ at, pred *ssa.BasicBlock }
+	var falseWays func(v ssa.Value, neg bool, d int) (always bool, vias []via)
+	falseWays = func(v ssa.Value, neg bool, d int) (bool, []via) {
+		base, n2 := core.StripNot(v)
+		neg = neg != n2
+		if d > 4 {
+			return true, nil
+		}
+		if k, isC := base.(*ssa.Const); isC && k.Value != nil && k.Value.Kind() == constant.Bool {
+			return constant.BoolVal(k.Value) == neg, nil
+		}
+		if isSmall(base) {
+			return !neg, nil
+		}
+		if ph, isPhi := base.(*ssa.Phi); isPhi {
+			var vs []via
+			for i, e := range ph.Edges {
+				if i >= len(ph.Block().Preds) {
+					continue
+				}
+				al, sub := falseWays(e, neg, d+1)
+				if al || len(sub) > 0 {
+					vs = append(vs, via{ph.Block(), ph.Block().Preds[i]})
+				}
+			}
+			return false, vs
+		}
+		if c, isCall := base.(*ssa.Call); isCall && !neg && depth < 2 {
+			if g := core.StaticCallee(&c.Call); g != nil && p.IsProdFunc(g) && g.Blocks != nil {
+				bound := map[ssa.Value]bool{}
+				args := core.CallArgs(&c.Call)
+				for i, pa := range g.Params {
+					if i < len(args) && isSmall(args[i]) {
+						bound[pa] = true
+					}
+				}
+				if len(bound) > 0 {
+					can, _, _ := keepWithoutSmall(p, g, func(x ssa.Value) bool { return bound[x] }, []*ssa.BasicBlock{g.Blocks[0]}, nil, depth+1)
+					return can, nil
+				}
+			}
+		}
+		return true, nil // an open value (a policy switch): can be false
+	}
+	nRet := 0
+	var wit []int
+	for _, ret := range core.Returns(fn) {
+		if len(ret.Results) == 0 {
+			continue
+		}
+		always, vias := falseWays(ret.Results[0], false, 0)
+		if !always && len(vias) == 0 {
+			continue
+		}
+		nRet++
+		for _, start := range starts {
+			if always {
+				if start == ret.Block() {
+					if wit == nil {
+						wit = []int{start.Index}
+					}
+					continue
+				}
+				if pth := core.PathAvoiding(start, ret.Block(), cut); pth != nil && wit == nil {
+					wit = pth
+				}
+				continue
+			}
+			for _, w := range vias {
+				edgeCut := false
+				for si, sb := range w.pred.Succs {
+					if sb == w.at && cut[core.Edge{From: w.pred, Idx: si}] {
+						edgeCut = true
+					}
+				}
+				if edgeCut {
+					continue
+				}
+				var pth []int
+				if start == w.pred {
+					pth = []int{start.Index}
+				} else {
+					pth = core.PathAvoiding(start, w.pred, cut)
+				}
+				if pth != nil && core.ReachAvoiding(w.at, cut)[ret.Block()] && wit == nil {
+					wit = append(pth, w.at.Index)
+				}
+			}
+		}
+	}
+	return wit != nil, wit, nRet
 }
